@@ -15,16 +15,17 @@ class Facts:
         self.fn_index = {}  # d -> list of (file, off, len, u, k, srcfile, line)
         self.callers = {}   # callee name -> [caller d]
         self.constructors = {}  # adt path -> [fn d that builds it with an aggregate]
+        self.callees = {}   # fn d -> [callee names]
         self._cache = {}
         idx = os.path.join(d, 'index.pkl')
         if os.path.exists(idx):
             with open(idx, 'rb') as f:
-                (self.crates, self.adts, self.traits, self.impls, self.fn_index, self.callers, self.constructors) = pickle.load(f)
+                (self.crates, self.adts, self.traits, self.impls, self.fn_index, self.callers, self.constructors, self.callees) = pickle.load(f)
         else:
             self._build()
             tmp = idx + '.%d' % os.getpid()
             with open(tmp, 'wb') as f:
-                pickle.dump((self.crates, self.adts, self.traits, self.impls, self.fn_index, self.callers, self.constructors), f)
+                pickle.dump((self.crates, self.adts, self.traits, self.impls, self.fn_index, self.callers, self.constructors, self.callees), f)
             os.replace(tmp, idx)
 
     def _build(self):
@@ -45,6 +46,7 @@ class Facts:
                             (fn, off, n, h['u'], h['k'], h['file'], h['line'], crate, tuple(h['sig'])))
                         for c in h['callees']:
                             self.callers.setdefault(c, []).append(d)
+                        self.callees.setdefault(d, []).extend(h['callees'])
                         for c in h.get('aggs', ()):
                             self.constructors.setdefault(c, []).append(d)
                     else:
@@ -125,3 +127,26 @@ class Facts:
 
     def callers_of(self, callee):
         return sorted(set(self.callers.get(callee, [])))
+
+    def call_tree(self, root, depth=3, same_crate_only=False):
+        """root + closures nested in visited fns + workspace callees, breadth-first up to depth"""
+        seen = {root: 0}
+        frontier = [root]
+        nested = {}
+        for d in self.fn_index:
+            k = d.find('::{closure')
+            if k > 0:
+                nested.setdefault(d[:k], []).append(d)
+        while frontier:
+            nxt = []
+            for d in frontier:
+                lvl = seen[d]
+                kids = list(nested.get(d, []))
+                if lvl < depth:
+                    kids += [c for c in self.callees.get(d, []) if c in self.fn_index]
+                for c in kids:
+                    if c not in seen:
+                        seen[c] = lvl + (0 if c in nested.get(d, []) else 1)
+                        nxt.append(c)
+            frontier = nxt
+        return seen
